@@ -31,3 +31,25 @@ Theorem rules_decided :
                     existsb (Nat.eqb n) rv_rules_undecided)
           (seq 0 (List.length rv_rules)) = true.
 Proof. vm_compute. reflexivity. Qed.
+
+(* ------------------------------------------------------------------ memory / move / control rules (C05_mem.v) *)
+From PV Require Import Proofs.C05_mem.
+
+Definition covered_rules2 : list string := map r_text (filter check_rule2 rv_rules).
+
+Theorem cj_refuted : forall w, In w rv_cj_bad ->
+  cj_witness_ok (rule_at (fst (fst w))) (snd (fst w)) (snd w) = true /\ check_rule2 (rule_at (fst (fst w))) = false.
+Proof.
+  assert (H : forallb (fun w => cj_witness_ok (rule_at (fst (fst w))) (snd (fst w)) (snd w) &&
+                                negb (check_rule2 (rule_at (fst (fst w))))) rv_cj_bad = true)
+    by (vm_compute; reflexivity).
+  intros w Hw. rewrite forallb_forall in H. specialize (H w Hw). apply andb_prop in H. destruct H as [H1 H2].
+  split; [exact H1|]. now destruct (check_rule2 _).
+Qed.
+
+Theorem rules2_decided :
+  forallb (fun n => let r := rule_at n in
+                    negb (in_scope2 r) || check_rule2 r || existsb (fun w => Nat.eqb (fst (fst w)) n) rv_cj_bad ||
+                    existsb (Nat.eqb n) rv_rules2_undecided)
+          (seq 0 (List.length rv_rules)) = true.
+Proof. vm_compute. reflexivity. Qed.
